@@ -21,7 +21,8 @@ def gen_seq(rng, nops, tables=None, big=False):
             pools[t].append(v)
             if len(pools[t]) > 12 and not big:
                 pools[t].pop(0)
-            toks.append("a%s:0:%s" % (t, v))
+            # malformed-message data: sometimes through ONE application object re-used for every call (members assigned)
+            toks.append("%s%s:0:%s" % ("r" if t == "md" and rng.random() < 0.5 else "a", t, v))
         elif k < 0.85:
             toks.append("g%s:0:%d" % (t, rng.randrange(0, 8 if not big else 300)))
         elif k < 0.95:
